@@ -7,6 +7,7 @@ mod driver;
 mod gen_prog;
 mod prng;
 mod procsim;
+mod pybind;
 mod sched;
 mod seam;
 mod tape;
